@@ -54,6 +54,13 @@ CHECKS = {
              'changes are restrictions, outer-before-inner order, partial defaults are the bound value of the own name).',
         note='displayed default/annotation values.',
         design='DESIGN.md section 3 (C10), appendix B7/B8'),
+    'C04': dict(
+        technique=TECH + 'argument-flow rules on enumerated paths (forwards = embed o mask, per-kind evaluation of the partial rewrite, declaration parameters used), class-protocol rules for the emulating wrapper',
+        text='Decides the structural clauses C04.R1-R5 (forwards is embed of mask with name-preserving flags, partial rewrite makes '
+             'every non-star parameter optional, every declaration parameter is used and reaches forwards(), forger protocol and '
+             'forger-first chain order, wrapper hygiene).',
+        note='that executing an accepted call raises no TypeError (needs running wrappers); emulate dispatch values.',
+        design='DESIGN.md section 3 (C04)'),
     'C05': dict(
         technique=TECH + 'meta-analysis of the AST visitor: handler exhaustiveness against the running interpreter\'s grammar (ASDL metadata), guard-table conformance on enumerated paths',
         text='Decides the structural clauses C05.R1-R8 (binder / parameter-field / scope exhaustiveness, evaluation order of '
@@ -80,6 +87,20 @@ CHECKS = {
              'annotation, evaluation context of postponed annotations and the upgrade table, annotate wraps with preevaluated).',
         note='the eager-vs-postponed metamorphic equality (needs evaluation).',
         design='DESIGN.md section 3 (C11)'),
+    'C12': dict(
+        technique=TECH + 'decision-table conformance of _PokTranslator._prepare / __call__ and of the start/end/auto forms on enumerated paths',
+        text='Decides the decoration-time and rejection structure C12.R1-R3 (tables B13/B14, position record is the index in the '
+             'original parameter list, re-preparation idempotent, forms select among positional-or-keyword parameters and apply '
+             'kwoargs to every selected name).',
+        note='delivery of argument values to the right parameter (index arithmetic on runtime lists), the iff over calls, bound-method behaviour.',
+        design='DESIGN.md section 3 (C12), appendix B13/B14'),
+    'C13': dict(
+        technique=TECH + 'argument-flow and class-protocol rules: pure forwarding, descriptor rebinding from stored constructor parts, update_wrapper hygiene',
+        text='Decides the structural clauses C13.R1-R6 (pure forwarding __call__, partial(wrapper, wrapped), Combination threading '
+             'and flattening, __get__ rebuilds type(self) from stored parts, as_forged exposure and hygiene, _Wrapped forger and '
+             'Combination merge, wrappers() order, guarded descriptor).',
+        note='equality of results with the hand-written composition on actual calls; signature/behaviour coherence.',
+        design='DESIGN.md section 3 (C13)'),
     'C14': dict(
         technique=TECH + 'class-protocol rules: guard dominance in __eq__, __hash__ presence, slot completeness and selection coherence of replace(), inherited-method inventory',
         text='Decides the structural clauses C14.R1-R4 (__eq__ totality and symmetric slot comparison, hashability, replace '
@@ -107,12 +128,24 @@ CHECKS = {
              'of shared mutable state equals the reviewed list). The window on the inspected function is a recorded known finding (D6).',
         note='everything about actual schedules; benign races on caches.',
         design='DESIGN.md section 3 (C17)'),
+    'C18': dict(
+        technique=TECH + 'alias rule for weak caches (value must not be derived from its key), argument-flow and effect-ordering rules for stacking and annotate, idempotence of _prepare',
+        text='Decides the structural clauses C18.R1-R4 (weak cache must not retain its key -- recorded known finding D7; stacking '
+             'merges both selections; annotate after a modifier re-prepares; descriptor cache keyed by the bound function).',
+        note='permutation equality of signatures and call behaviour; sequence histories.',
+        design='DESIGN.md section 3 (C18)'),
     'C19': dict(
         technique=TECH + 'sibling cross-check of the two partial branches (argument flow into _mask), partial column of the mask table, effect ordering',
         text='Decides the structural clauses C19.R1-R4 (both partial branches call _mask with the same shape, partial rows of the '
              'mask table, depth copy before depth-0 placement, discovery passes bound positionals and no keywords).',
         note='agreement with really calling the partial object.',
         design='DESIGN.md section 3 (C19)'),
+    'C20': dict(
+        technique=TECH + 'decision-table conformance of the independent binder, partition rule, enumeration bounds with effect ordering',
+        text='Decides only the structural clauses C20.R1-R3 (bind_callsig table B15, sort_callsigs partition, make_up_callsigs '
+             'bounds). The string/code round trip is stated not applicable (value-level).',
+        note='the string <-> code <-> signature round trip of read_sig/func_code/f/s/func_from_sig; equality of bind_callsig\'s mapping with CPython\'s.',
+        design='DESIGN.md section 3 (C20)'),
 }
 
 NOT_YET = 'no static check registered yet in this round (work in progress; see DESIGN.md section 3 for the planned clauses)'
